@@ -9,10 +9,10 @@ HX int h_finddelay(const double* x, int n, int d, int cplx) {
     H_TRY if (cplx) { arr_cmplx a = mk_cmplx(x, n); return finddelay(a, delayseq(a, d)); } arr_real a = mk_real(x, n); return finddelay(a, delayseq(a, d)); H_END
 }
 HX double h_gccphat(const double* x, int n, int d, int fs) { arr_real a = mk_real(x, n); auto r = gccphat(delayseq(a, d), a, fs); return r.tau; }
-// detector over a stream of nframes * frame_len samples; out rows of (frame, offset, score, preamble re/im ...) ; returns number of detections, fl[0] = frame_len
-HX int h_detect(const double* h, int nh, double thr, const double* x, int nframes, double* out, int rowlen, int* fl) {
+// detector over a stream of nframes * chunk * frame_len samples, `chunk` frames per process() call; out rows of (frame, offset, score, preamble re/im ...) ; returns number of detections, fl[0] = frame_len
+HX int h_detect(const double* h, int nh, double thr, const double* x, int nframes, double* out, int rowlen, int* fl, int chunk) {
     H_TRY
-    PreambleDetector det(mk_cmplx(h, nh), thr); const int L = det.frame_len(); fl[0] = L; int cnt = 0;
+    PreambleDetector det(mk_cmplx(h, nh), thr); const int L = det.frame_len() * (chunk < 1 ? 1 : chunk); fl[0] = det.frame_len(); int cnt = 0;      // every process() call gets `chunk` frames; row = (call index, offset inside the call's input, ...)
     for (int f = 0; f < nframes; ++f) {
         auto r = det.process(mk_cmplx(x + 2 * f * L, L));
         if (r) { double* o = out + cnt * rowlen; o[0] = f; o[1] = r->offset; o[2] = r->score; for (int i = 0; i < r->preamble.size() && 3 + 2 * i + 1 < rowlen; ++i) { o[3 + 2 * i] = r->preamble[i].re; o[4 + 2 * i] = r->preamble[i].im; } ++cnt; }
